@@ -8,7 +8,9 @@ from . import drive_run
 from .common import sub_seed
 
 RATES = [0.25, -0.25, 0.5, -0.5, 0.125]
-SHARE_SETS = {1: [[128]], 2: [[64, 192], [128, 128], [100, 28], [300, 212]], 3: [[64, 64, 128], [100, 28, 128], [16, 48, 192]]}
+SHARE_SETS = {1: [[128]], 2: [[64, 192], [128, 128], [100, 28], [300, 212]],
+              # (128 + 64 + 192 = 3 x 128: unequal shares whose mean is the first one)
+              3: [[64, 64, 128], [100, 28, 128], [16, 48, 192], [128, 64, 192], [100, 150, 50]]}
 
 
 def frac(x):
@@ -163,6 +165,21 @@ def make(rng, kind):
                 cfg[name] = {"extends": "T" + name, "enabled": full["enabled"], "triggerTime": full["triggerTime"]}
             if name not in cfg:
                 continue
+            # (choices below come from a generator of their own, so that the scenarios drawn from rng stay what they were)
+            r2 = random.Random(name + repr(sorted((k, repr(x)) for k, x in cfg[name].items())))
+            if kd in ("plimit", "halt") and "extends" not in cfg[name] and r2.random() < 0.35:
+                # a rule declared through a template: the entry's own keys win - also the falsy ones (no targets, a rate of
+                # zero = a band of one price, "enabled": false)
+                full = cfg[name]
+                tmpl = dict(full, enabled=True, targetMarkets=list(names))
+                child = {"extends": "T" + name, "enabled": full["enabled"], "targetMarkets": full["targetMarkets"]}
+                if kd == "plimit":
+                    tmpl["triggerChangeRate"] = 0.5
+                    child["triggerChangeRate"] = 0.0 if r2.random() < 0.3 else full["triggerChangeRate"]
+                cfg["T" + name] = tmpl
+                cfg[name] = child
+            elif cfg[name].get("enabled") is True and "extends" not in cfg[name] and r2.random() < 0.4:
+                del cfg[name]["enabled"]          # the key is optional: an event is enabled unless it says otherwise
             sess.setdefault("events", []).append(name)
             n_ev += 1
     return cfg
@@ -253,9 +270,20 @@ def generate(n, seed, kinds=("fshock", "mistake", "plimit", "halt", "index", "mi
     runs = []
     for i in range(n):
         kind = kinds[i % len(kinds)]
-        cfg = make(rng, kind)
+        cfg = make(rng, "mistake" if kind == "mistakez" else kind)
         if kind in ("fshock", "index") and i % long_every == 0:
             cfg = lengthen(cfg, rng)
+        if kind == "mistakez":
+            # prices next to zero: trades at price 0 (and below) leave a market price that is not positive when the shock fires -
+            # the side of the mistake order still follows the sign of the configured rate
+            for name in cfg["simulation"]["markets"]:
+                cfg[name]["marketPrice"] = 2.0 * cfg[name]["tickSize"]
+                if "fundamentalPrice" in cfg[name] and not name.startswith("IDX"):
+                    cfg[name]["fundamentalPrice"] = cfg[name]["marketPrice"]
+            for g in ("N", "H"):
+                cfg[g]["script"] = dict(cfg[g]["script"], penny=True, spread=3, pMarket=0.3, pEmpty=0.1, absBase=0)
+            for s_ in cfg["simulation"]["sessions"]:
+                s_.update(withOrderPlacement=True, withOrderExecution=True)
         r = drive_run.execute(cfg, rng.randrange(2 ** 31))
         r["src"] = "events:" + kind
         r["evhdr"] = header_from_cfg(cfg)
